@@ -158,6 +158,8 @@ def gen_case(seed, tier):
                                   "wrap": wl.choice([0, 0, 0, 1, -1])})
                 else:
                     steps.append({"k": "row_rd", "a": wl.randrange(max(1, depth))})
+                if wl.random() < 0.25:
+                    steps.append({"k": "row_wr_refused", "a": wl.randrange(max(1, depth)), "v": wl.randrange(1 << 30)})
                 continue
             cands = [("ctl%d" % k, None) for k in range(nctl)]
             for i, wp in enumerate(wports):
@@ -318,7 +320,9 @@ def build_dut(config):
     ctls = {}
     for w in config.get("wrap", []):
         if w[0] == "rename":
-            dut = DomainRenamer(dict(w[1]))(dut)
+            dmap_ = dict(w[1])
+            dut = DomainRenamer(dmap_)(dut)
+            dmap_.clear()         # (the caller's dictionary may be reused or emptied afterwards)
         elif w[0] == "enable_nrst":
             from amaranth.hdl import ResetSignal
             dut = EnableInserter({w[1]: ~ResetSignal(w[1])})(dut)
@@ -495,6 +499,21 @@ def run_case(case):
                     drv.set(row, sv)
                     rows[st["a"]] = [v, full]
                     P["row_wr"] += 1
+            elif k == "row_wr_refused":
+                # a testbench write to a row *and* a combinationally driven signal (the data of an asynchronous read port) in one
+                # assignment: refused as a whole - the row keeps its contents
+                comb_rp = [i for i, rp in enumerate(config["rports"]) if rp["domain"] == "comb" and len(rdata[i])]
+                if st["a"] < depth and comb_rp and width:
+                    from amaranth.hdl import Cat as _Cat
+                    tgt = _Cat(Value.cast(mem.data[st["a"]]), rdata[comb_rp[0]])
+                    try:
+                        drv.set(tgt, st["v"] & ((1 << len(tgt)) - 1))
+                    except Exception as e_:
+                        if type(e_).__name__ != "DriverConflict":
+                            raise
+                        P["refused_row_write"] = P.get("refused_row_write", 0) + 1
+                    else:
+                        raise Violation("write_to_comb_driven_signal_accepted", idx, {"addr": st["a"]})
             elif k == "row_rd":
                 if st["a"] < depth:
                     got0 = drv.get(Value.cast(mem.data[st["a"]]))
